@@ -707,6 +707,13 @@ def _iter_unused_names(
     if isinstance(scope, (ast.For, ast.While)):
         *_, required_names = tracing.code_dependencies_outputs([scope])
         preserve = preserve | required_names
+    if isinstance(scope, ast.Try):
+        # The handlers and the finally clause may run after any statement of the body.
+        preserve = preserve | {
+            name.id
+            for node in itertools.chain(scope.handlers, scope.orelse, scope.finalbody)
+            for name in core.walk(node, ast.Name(ctx=ast.Load))
+        }
 
     for body in filter(None, bodies):
         names_defined_in_scope = {
